@@ -24,12 +24,25 @@ import (
 //
 // Inputs: numerator n = (-1)^sn * nm with nm < 2^B and ANY announced length nAnn with
 // truelen(nm) <= nAnn (case split 1..B+2 and 64, the capacity of NewInt), denominator
-// d = (-1)^sd * dm with 0 < dm < 2^B, true length L (case split) and announced length L, L+1 or 64.
+// d = (-1)^sd * dm with 0 < dm < 2^B, true length L (case split) and announced length L or 64.
 // Negative zero is included (saferith's sign-magnitude form has it, and numct's Neg produces it).
 // nm, dm, the signs are symbolic; lengths are concrete on each path.
 //
 // Results are read back through the saferith API (IsNegative, Abs().Uint64(), AnnouncedLen), so
 // the same harness code runs in the native twin against the real saferith.
+//
+// History (every violation was confirmed by native replay; both are repaired in /repo, see
+// /verif/known_findings.json, and all harnesses are valid on the repaired tree):
+//   - eucdivvt_cappos (capacity expression nAnn - truelen(d) + 2 >= 1): valid. Changing "+2" to "+1"
+//     in EuclideanDivVarTime makes it fail (first witness -1/2; -255/2 is among the 140 failing paths).
+//   - eucdivvt_capzero (expression == 0, i.e. announced(n) + 2 == truelen(d)) was VIOLATED for n < 0:
+//     i.Resize(0) cut the quotient -1 (or +1) to zero bits: n = -1 (announced 1), d = 4 gave q = -0, r = 3.
+//   - eucdivvt_capneg_dtight (expression < 0, d announced with its true length) was VIOLATED for n < 0:
+//     Nat.EuclideanDivVarTime called rr.Mul(d, q, -1) with capacity announced(d) + announced(q) <
+//     truelen(d); saferith masks the operand d IN PLACE and Int.EuclideanDivVarTime then computed
+//     |d| - r from the damaged d: n = -1 (announced 1), d = 9 (announced 4) gave q = -1, r = 0.
+//   - eucdivvt_capneg_dwide (expression < 0, d announced with 64 bits): valid.
+//   - DivVarTime, EuclideanDiv, Div: valid on the whole domain.
 
 func verifReplacements() map[string]any { return verifSaferithReplacements() }
 
@@ -56,48 +69,53 @@ type verifDivCase struct {
 	numeratorIsNeg bool
 }
 
-// verifDivInputs draws the operands. region: 0 = everything, 1 = capExpr != 0, 2 = capExpr == 0.
-func verifDivInputs(B int, region int) *verifDivCase {
+// verifDivInputs draws the operands. region: 0 = everything, 1 = capExpr >= 1, 2 = capExpr == 0,
+// 3 = capExpr < 0, 4 = capExpr < 0 and the denominator announced with 64 bits, 5 = capExpr < 0 and
+// the denominator announced with exactly its true length, 6 = numerator and denominator announced
+// with 64 bits, denominator 2 or 3.
+func verifDivInputs(B int, region int) *verifDivCase { return verifDivInputsW(B, region, 64) }
+
+// verifDivInputsW: dWide is the second choice for the announced length of the denominator.
+func verifDivInputsW(B int, region int, dWide int) *verifDivCase {
 	c := &verifDivCase{}
 	c.nAnn = verifLen(1, B+3)
 	if c.nAnn == B+3 {
 		c.nAnn = 64
 	}
 	c.dLen = verifLen(1, B)
-	dAnn := c.dLen + verifLen(0, 2)
-	if dAnn == c.dLen+2 {
-		dAnn = 64
+	dAnn := c.dLen
+	if verifLen(0, 1) == 1 {
+		dAnn = dWide
 	}
 	c.capExpr = c.nAnn - c.dLen + 2
 	switch region {
 	case 1:
-		verifAssume(c.capExpr != 0)
+		verifAssume(c.capExpr >= 1)
 	case 2:
 		verifAssume(c.capExpr == 0)
+	case 3:
+		verifAssume(c.capExpr < 0)
+	case 4:
+		verifAssume(c.capExpr < 0 && dAnn == dWide)
+	case 5:
+		verifAssume(c.capExpr < 0 && dAnn == c.dLen)
+	case 6: // a small corner for the controls
+		verifAssume(c.nAnn == 64 && c.dLen == 2 && dAnn == 64)
 	}
 	c.bound = uint64(1) << uint(B)
-	c.nm = verifU64()
-	verifAssume(c.nm < c.bound)
-	if c.nAnn < 64 {
-		verifAssume(c.nm>>uint(c.nAnn) == 0) // announced length >= true length
-	}
+	// nm < 2^B and truelen(nm) <= nAnn, by construction (masks keep the high bits syntactically 0)
+	nbits := min(B, c.nAnn)
+	c.nm = verifU64() & (uint64(1)<<uint(nbits) - 1)
 	// dm has true length exactly dLen: top bit set by construction
-	low := verifU64()
-	verifAssume(low>>uint(c.dLen-1) == 0)
-	c.dm = uint64(1)<<uint(c.dLen-1) | low
+	top := uint64(1) << uint(c.dLen-1)
+	c.dm = top | verifU64()&(top-1)
 	c.sn = verifBool()
 	c.sd = verifBool()
 	verifLenHint = c.dLen
 	c.n = verifMkInt(c.sn, c.nm, c.nAnn)
 	c.d = verifMkInt(c.sd, c.dm, dAnn)
-	c.nv = int32(c.nm)
-	if c.sn {
-		c.nv = -c.nv
-	}
-	c.dv = int32(c.dm)
-	if c.sd {
-		c.dv = -c.dv
-	}
+	c.nv = verifSigned(saferith.Choice(verifB2U(c.sn)), c.nm)
+	c.dv = verifSigned(saferith.Choice(verifB2U(c.sd)), c.dm)
 	return c
 }
 
@@ -133,7 +151,7 @@ func verifDivVarTime(id string, B, region int) {
 	verifAssert(id+".quotient_magnitude_bounded", qmag < c.bound)
 	verifAssert(id+".remainder_magnitude_lt_d", rmag < c.dm)
 	// sign of a non-zero remainder = sign of the numerator (truncated division)
-	verifAssert(id+".remainder_sign", rmag == 0 || (rneg == 1) == c.sn)
+	verifAssert(id+".remainder_sign", verifB2U(rmag == 0)|verifB2U(uint64(rneg) == verifB2U(c.sn)) == 1)
 	qv := verifSigned(qneg, qmag&(c.bound-1))
 	rv := verifSigned(rneg, rmag&(c.bound-1))
 	verifAssert(id+".n_eq_qd_plus_r", c.nv == qv*c.dv+rv)
@@ -145,39 +163,139 @@ func verifDivVarTime(id string, B, region int) {
 // H_numct_eucdivvt: the obligation on the whole domain, B = 8.
 func H_numct_eucdivvt() { verifEucDivVarTime("eucdivvt", 8, 0) }
 
-// H_numct_eucdivvt_capnonzero / _capzero: the same split by the value of the capacity expression
-// nAnn - truelen(d) + 2 (numct's Resize treats a negative capacity as "keep", zero truncates to 0).
-func H_numct_eucdivvt_capnonzero() { verifEucDivVarTime("eucdivvt_capnonzero", 8, 1) }
-func H_numct_eucdivvt_capzero()    { verifEucDivVarTime("eucdivvt_capzero", 8, 2) }
+// H_numct_eucdivvt_cappos / _capzero / _capneg_*: the same, split by the sign of the capacity
+// expression nAnn - truelen(d) + 2 (positive: the quotient is resized to it; zero: the quotient is
+// truncated to 0 bits; negative: numct's Resize keeps the capacity, but saferith's Div/Mul are
+// handed a non-positive / too small capacity).
+func H_numct_eucdivvt_cappos()  { verifEucDivVarTime("eucdivvt_cappos", 8, 1) }
+func H_numct_eucdivvt_capzero() { verifEucDivVarTime("eucdivvt_capzero", 8, 2) }
+
+// the negative-capacity region split by the announced length of the denominator
+func H_numct_eucdivvt_capneg_dwide()  { verifEucDivVarTime("eucdivvt_capneg_dwide", 8, 4) }
+func H_numct_eucdivvt_capneg_dtight() { verifEucDivVarTime("eucdivvt_capneg_dtight", 8, 5) }
+
+// H_numct_eucdivvt_m255_by_2: the concrete point -255 / 2 (numerator announced with its true
+// length 8): q = -128 needs all 8 = 8 - 2 + 2 bits of the quotient capacity, r = 1.
+func H_numct_eucdivvt_m255_by_2() {
+	n := verifMkInt(true, 255, 8)
+	d := verifMkInt(false, 2, 2)
+	q, r := new(Int), new(Nat)
+	ok := q.EuclideanDivVarTime(r, n, d)
+	verifReach("eucdivvt_m255_by_2.reach")
+	qneg, qmag := verifIntParts(q)
+	verifAssert("eucdivvt_m255_by_2.quotient_is_minus_128", ok == ct.True && qneg == 1 && qmag == 128)
+	verifAssert("eucdivvt_m255_by_2.remainder_is_1", (*saferith.Nat)(r).Uint64() == 1)
+}
 
 // thorough
-func H_numct_eucdivvt_B10()            { verifEucDivVarTime("eucdivvt_b10", 10, 0) }
-func H_numct_eucdivvt_capnonzero_B10() { verifEucDivVarTime("eucdivvt_capnonzero_b10", 10, 1) }
+func H_numct_eucdivvt_B10()        { verifEucDivVarTime("eucdivvt_b10", 10, 0) }
+func H_numct_eucdivvt_cappos_B10() { verifEucDivVarTime("eucdivvt_cappos_b10", 10, 1) }
 
 // ---- DivVarTime
 
 func H_numct_divvt()     { verifDivVarTime("divvt", 8, 0) }
 func H_numct_divvt_B10() { verifDivVarTime("divvt_b10", 10, 0) }
 
+// ---- the constant-time twins (bit-serial internal.EuclideanDiv, one iteration per announced bit
+// of the numerator; quotient capacity = numerator.AnnouncedLen(), remainder capacity =
+// denominator.AnnouncedLen()). The denominator is announced with its true length or with 24 bits,
+// not with 64: the loop computes rt - d modulo 2^(announced(d)+1), a value of announced(d)+1 bits
+// whenever rt < d, which for 64 lies outside the model's one-limb domain (model_in_domain catches
+// it).
+
+func verifEucDivCT(id string, B, region int) {
+	c := verifDivInputsW(B, region, 24)
+	verifAssume(c.nAnn != 64) // 64 loop iterations over symbolic data: too slow for the solver
+	q, r := new(Int), new(Nat)
+	ok := q.EuclideanDiv(r, c.n, c.d)
+	verifReach(id + ".reach")
+	verifAssert(id+".ok", ok == ct.True)
+	qneg, qmag := verifIntParts(q)
+	rmag := (*saferith.Nat)(r).Uint64()
+	verifAssert(id+".quotient_magnitude_bounded", qmag <= c.bound)
+	verifAssert(id+".remainder_in_range", rmag < c.dm)
+	qv := verifSigned(qneg, qmag&(2*c.bound-1))
+	verifAssert(id+".n_eq_qd_plus_r", c.nv == qv*c.dv+int32(rmag&(c.bound-1)))
+	verifAssertGhost(id+".model_in_domain", verifEscaped == 0)
+}
+
+func verifDivCT(id string, B, region int) {
+	c := verifDivInputsW(B, region, 24)
+	verifAssume(c.nAnn != 64)
+	q, r := new(Int), new(Int)
+	ok := q.Div(r, c.n, c.d)
+	verifReach(id + ".reach")
+	verifAssert(id+".ok", ok == ct.True)
+	qneg, qmag := verifIntParts(q)
+	rneg, rmag := verifIntParts(r)
+	verifAssert(id+".quotient_magnitude_bounded", qmag < c.bound)
+	verifAssert(id+".remainder_magnitude_lt_d", rmag < c.dm)
+	verifAssert(id+".remainder_sign", verifB2U(rmag == 0)|verifB2U(uint64(rneg) == verifB2U(c.sn)) == 1)
+	qv := verifSigned(qneg, qmag&(c.bound-1))
+	rv := verifSigned(rneg, rmag&(c.bound-1))
+	verifAssert(id+".n_eq_qd_plus_r", c.nv == qv*c.dv+rv)
+	verifAssertGhost(id+".model_in_domain", verifEscaped == 0)
+}
+
+func H_numct_eucdiv_ct()    { verifEucDivCT("eucdiv_ct", 5, 0) }
+func H_numct_div_ct()       { verifDivCT("div_ct", 5, 0) }
+func H_numct_eucdiv_ct_B7() { verifEucDivCT("eucdiv_ct_b7", 7, 0) }
+func H_numct_div_ct_B7()    { verifDivCT("div_ct_b7", 7, 0) }
+
+// ---- division by zero: all four functions report ok = 0 and leave the outputs alone (d = +0 or -0
+// with any announced length up to 9 bits, or 64)
+
+func H_numct_div_by_zero() {
+	which := verifLen(0, 3)
+	dAnn := verifLen(0, 10)
+	if dAnn == 10 {
+		dAnn = 64
+	}
+	nm := verifU64() & 0xff
+	n := verifMkInt(verifBool(), nm, 9)
+	d := verifMkInt(verifBool(), 0, dAnn)
+	q := verifMkInt(false, 5, 3)
+	rn := (*Nat)(new(saferith.Nat).SetUint64(6).Resize(3))
+	ri := verifMkInt(true, 6, 3)
+	var ok ct.Bool
+	switch which {
+	case 0:
+		ok = q.EuclideanDivVarTime(rn, n, d)
+	case 1:
+		ok = q.DivVarTime(ri, n, d)
+	case 2:
+		ok = q.EuclideanDiv(rn, n, d)
+	default:
+		ok = q.Div(ri, n, d)
+	}
+	verifReach("div_by_zero.reach")
+	verifAssert("div_by_zero.not_ok", ok == ct.False)
+	qneg, qmag := verifIntParts(q)
+	verifAssert("div_by_zero.quotient_untouched", verifB2U(qneg == 0)&verifB2U(qmag == 5) == 1)
+	rneg, rmag := verifIntParts(ri)
+	verifAssert("div_by_zero.remainder_untouched", verifB2U(rneg == 1)&verifB2U(rmag == 6)&verifB2U((*saferith.Nat)(rn).Uint64() == 6) == 1)
+	verifAssertGhost("div_by_zero.model_in_domain", verifEscaped == 0)
+}
+
 // ---- controls
 
 // H_numct_eucdivvt_MUSTFAIL: claims the TRUNCATED remainder for the Euclidean function (wrong for
 // a negative numerator that is not divisible).
 func H_numct_eucdivvt_MUSTFAIL() {
-	c := verifDivInputs(4, 1)
+	c := verifDivInputs(4, 6)
 	q, r := new(Int), new(Nat)
 	ok := q.EuclideanDivVarTime(r, c.n, c.d)
 	verifReach("eucdivvt_mustfail.reach")
 	rmag := (*saferith.Nat)(r).Uint64()
-	verifAssert("eucdivvt_mustfail.wrong_remainder", ok == ct.True && rmag == c.nm%c.dm)
+	verifAssert("eucdivvt_mustfail.wrong_remainder", verifB2U(ok == ct.True)&verifB2U(rmag == c.nm%c.dm) == 1)
 }
 
 // H_numct_divvt_MUSTFAIL: claims the Euclidean (non-negative) remainder for the truncated function.
 func H_numct_divvt_MUSTFAIL() {
-	c := verifDivInputs(4, 1)
+	c := verifDivInputs(4, 6)
 	q, r := new(Int), new(Int)
 	ok := q.DivVarTime(r, c.n, c.d)
 	verifReach("divvt_mustfail.reach")
 	rneg, rmag := verifIntParts(r)
-	verifAssert("divvt_mustfail.wrong_remainder_sign", ok == ct.True && (rmag == 0 || rneg == 0))
+	verifAssert("divvt_mustfail.wrong_remainder_sign", verifB2U(ok == ct.True)&(verifB2U(rmag == 0)|verifB2U(rneg == 0)) == 1)
 }
